@@ -71,6 +71,7 @@ def e1_jobs(prop, tier, seed):
     # bounded-exhaustive part (release + ledger, mixed parity)
     if quick:
         jobs += seq_jobs("rel", "exh", seed, n, ["--depth", "2", "--secs", "150"] + base, "exh-rel", crash=crash, timeout=600)
+        jobs += seq_jobs("rel", "exh", seed, n, ["--depth", "2", "--secs", "150", "--parity", "packed"] + base, "exh-packed", crash=crash, timeout=600)
     else:
         jobs += seq_jobs("rel", "exh", seed, 4 * n, ["--depth", "3", "--secs", "500"] + base, "exh-rel", crash=crash, timeout=1200)
         jobs += seq_jobs("dbg", "exh", seed, n, ["--depth", "2", "--secs", "500"] + base, "exh-dbg", crash=crash, timeout=1200)
@@ -79,7 +80,8 @@ def e1_jobs(prop, tier, seed):
     for bname, cnt in (("rel", wr), ("dbg", wd)):
         js = seq_jobs(bname, "walk", seed, n, ["--count", str(cnt)] + base, "walk-" + bname, crash=crash, timeout=1500)
         for k, j in enumerate(js):
-            j.argv += ["--parity", ["mixed", "odd", "even", "mixed"][k % 4]]
+            # parity modes spread over the shards; 'packed' = no red zones, buffers placed back to back
+            j.argv += ["--parity", ["mixed", "odd", "even", "packed"][k % 4]]
         jobs += js
     # ASan (+LSan) on the same seeds
     if c["asan"]:
